@@ -471,6 +471,43 @@ pub fn num_opens_table(args: &[String]) -> i32 {
     for i in all_instructions() {
         out.line(&json!({"ins": instr_to_json(&i), "opens": i.num_opens()}));
     }
+    // the instruction types that are the payloads of the enums answer for themselves too: what
+    // a part says about the blocks it opens is what the whole says
+    for i in all_instructions() {
+        use push::instruction::{ExecInstruction as E, IntInstruction as I, PushInstruction as P};
+        let part: Option<usize> = match &i {
+            P::IntInstruction(I::Pop(x)) => Some(x.num_opens()),
+            P::IntInstruction(I::Push(x)) => Some(x.num_opens()),
+            P::IntInstruction(I::Dup(x)) => Some(x.num_opens()),
+            P::IntInstruction(I::Swap(x)) => Some(x.num_opens()),
+            P::IntInstruction(I::IsEmpty(x)) => Some(x.num_opens()),
+            P::IntInstruction(I::StackDepth(x)) => Some(x.num_opens()),
+            P::IntInstruction(I::Flush(x)) => Some(x.num_opens()),
+            P::IntInstruction(I::Print(x)) => Some(x.num_opens()),
+            P::IntInstruction(I::PrintLn(x)) => Some(x.num_opens()),
+            P::Exec(E::Noop(x)) => Some(x.num_opens()),
+            P::Exec(E::DupBlock(x)) => Some(x.num_opens()),
+            P::Exec(E::When(x)) => Some(x.num_opens()),
+            P::Exec(E::Unless(x)) => Some(x.num_opens()),
+            P::Exec(E::IfElse(x)) => Some(x.num_opens()),
+            P::Exec(E::Dup(x)) => Some(x.num_opens()),
+            P::Exec(E::Swap(x)) => Some(x.num_opens()),
+            P::Exec(E::Pop(x)) => Some(x.num_opens()),
+            P::Exec(e @ E::Flush(_)) => Some(e.num_opens()),
+            P::PrintSpace(x) => Some(x.num_opens()),
+            P::PrintNewline(x) => Some(x.num_opens()),
+            P::PrintPeriod(x) => Some(x.num_opens()),
+            P::PrintString(x) => Some(x.num_opens()),
+            _ => None,
+        };
+        if let Some(opens) = part {
+            if opens != i.num_opens() {
+                let mut j = instr_to_json(&i).unwrap_or(json!({"f": "unknown", "o": "unknown"}));
+                j["o"] = json!(format!("{}(its own type)", j["o"].as_str().unwrap_or("")));
+                out.line(&json!({"ins": j, "opens": opens, "whole": i.num_opens()}));
+            }
+        }
+    }
     out.finish();
     0
 }
